@@ -235,3 +235,7 @@ Definition api_step (c : cfg) (o : aop) : cfg * ret * list event :=
       at_node c p (fun _ => (None, RNode (match p with [] => None | _ => Some (removelast p) end), []))
   | OIsKind p => at_node c p (fun s => (None, RInt (kind_bits s), []))
   end.
+
+(* a history of operations from a state *)
+Definition step_cfg (c : cfg) (o : aop) : cfg := fst (fst (api_step c o)).
+Definition run_ops (c : cfg) (ops : list aop) : cfg := fold_left step_cfg ops c.
